@@ -18,9 +18,9 @@ theorem slice_checkEor (n : Nat) (t : Slice) (ht : SInv t) :
   have h0 : ¬ t.source.length < t.pos := by omega
   by_cases h : n > t.source.length - t.pos
   · have : t.source.length - t.pos < n := by omega
-    simp [h0, h, this]
+    simp [h0, h]
   · have : ¬ t.source.length - t.pos < n := by omega
-    simp [h0, h, this]
+    simp [h0, h]
 
 theorem slice_readSlice_refines (n : Nat) (t : Slice) (ht : SInv t) :
     Agree SInv Slice.rest (Slice.readSlice t n) (Mem.readSlice n t.rest) := by
